@@ -98,44 +98,54 @@ def coverage(w):
     return r.completed and not zero
 
 
+def _one_seed(root, name):
+    """-> (name, verdict string, ok)"""
+    meta = json.load(open(os.path.join(root, name, "meta.json")))
+    pid = meta["property"]
+    if "not applicable" in (meta.get("history") or ""):
+        return name, "not applicable (%s)" % meta["history"][:80], True
+    wt = "/tmp/st-" + name
+    subprocess.run(["git", "-C", "/repo", "worktree", "remove", "--force", wt], capture_output=True)
+    subprocess.run(["git", "-C", "/repo", "worktree", "add", "-q", "--detach", wt, "HEAD"], check=True)
+    try:
+        p = subprocess.run(["git", "-C", wt, "apply", "-3", "--whitespace=nowarn", os.path.join(root, name, "patch.diff")], capture_output=True, text=True)
+        if p.returncode != 0:
+            return name, "patch no longer applies to HEAD (skipped)", True
+        # does the change still break anything on this HEAD?  (a later fix: commit may have made it harmless: its own
+        # demonstration then passes, and there is nothing left to detect)
+        demo = os.path.join(root, name, "demo_test.go")
+        if os.path.exists(demo):
+            import shutil
+            shutil.copy(demo, os.path.join(wt, "zz_seeded_demo_test.go"))
+            env = dict(os.environ, GOFLAGS="-mod=mod", GOPROXY="off", GOSUMDB="off", GOTOOLCHAIN="local")
+            pd = subprocess.run(["go", "test", "-vet=off", "-count=1", "-run", "TestSeeded", "."], cwd=wt, env=env, capture_output=True, text=True)
+            os.remove(os.path.join(wt, "zz_seeded_demo_test.go"))
+            shutil.rmtree(os.path.join(wt, "data"), ignore_errors=True)
+            if pd.returncode == 0:
+                return name, "its own demonstration passes on this HEAD: made harmless by a later fix (skipped)", True
+        which = [pid] + [c for c in meta.get("checks_run", {}) if c != pid]
+        for c in which:
+            p = subprocess.run([os.path.join(vlib.VERIF, "verif"), "check", c, "--tier", "quick"], cwd=vlib.VERIF, env=dict(os.environ, VERIF_REPO=wt), capture_output=True, text=True)
+            if p.returncode == 1 and "VIOLATION" in p.stdout:
+                return name, "(%s): detected by %s" % (pid, c), True
+        return name, "(%s): NOT DETECTED" % pid, False
+    finally:
+        subprocess.run(["git", "-C", "/repo", "worktree", "remove", "--force", wt], capture_output=True)
+
+
 def seeded(w):
+    """Every seeded change, three at a time, each in its own scratch worktree of /repo HEAD."""
+    from concurrent.futures import ThreadPoolExecutor
     ok = True
     root = os.path.join(vlib.VERIF, "seeded")
-    for name in sorted(os.listdir(root)):
-        meta = json.load(open(os.path.join(root, name, "meta.json")))
-        pid = meta["property"]
-        wt = "/tmp/st-" + name
-        subprocess.run(["git", "-C", "/repo", "worktree", "remove", "--force", wt], capture_output=True)
-        subprocess.run(["git", "-C", "/repo", "worktree", "add", "-q", "--detach", wt, "HEAD"], check=True)
-        try:
-            p = subprocess.run(["git", "-C", wt, "apply", "-3", "--whitespace=nowarn", os.path.join(root, name, "patch.diff")], capture_output=True, text=True)
-            if p.returncode != 0:
-                log("seeded %-8s patch no longer applies to HEAD (skipped)" % name)
-                continue
-            # does the change still break anything on this HEAD?  (a later fix: commit may have made it harmless: its own
-            # demonstration then passes, and there is nothing left to detect)
-            demo = os.path.join(root, name, "demo_test.go")
-            if os.path.exists(demo):
-                import shutil
-                shutil.copy(demo, os.path.join(wt, "zz_seeded_demo_test.go"))
-                env = dict(os.environ, GOFLAGS="-mod=mod", GOPROXY="off", GOSUMDB="off", GOTOOLCHAIN="local")
-                pd = subprocess.run(["go", "test", "-vet=off", "-count=1", "-run", "TestSeeded", "."], cwd=wt, env=env, capture_output=True, text=True)
-                os.remove(os.path.join(wt, "zz_seeded_demo_test.go"))
-                shutil.rmtree(os.path.join(wt, "data"), ignore_errors=True)
-                if pd.returncode == 0:
-                    log("seeded %-8s its own demonstration passes on this HEAD: made harmless by a later fix (skipped)" % name)
-                    continue
-            which = [pid] + [c for c in meta.get("checks_run", {}) if c != pid]
-            hit = None
-            for c in which:
-                p = subprocess.run([os.path.join(vlib.VERIF, "verif"), "check", c, "--tier", "quick"], cwd=vlib.VERIF, env=dict(os.environ, VERIF_REPO=wt), capture_output=True, text=True)
-                if p.returncode == 1 and "VIOLATION" in p.stdout:
-                    hit = c
-                    break
-            log("seeded %-8s (%s): %s" % (name, pid, "detected by " + hit if hit else "NOT DETECTED"))
-            ok &= hit is not None
-        finally:
-            subprocess.run(["git", "-C", "/repo", "worktree", "remove", "--force", wt], capture_output=True)
+    names = sorted(os.listdir(root))
+    only = os.environ.get("SEEDED_ONLY")
+    if only:
+        names = [n for n in names if n in only.split(",")]
+    with ThreadPoolExecutor(int(os.environ.get("SEEDED_PAR", "3"))) as ex:
+        for name, verdict, good in ex.map(lambda n: _one_seed(root, n), names):
+            log("seeded %-8s %s" % (name, verdict))
+            ok &= good
     return ok
 
 
